@@ -3,7 +3,7 @@ from __future__ import annotations
 
 import ast
 
-from ..engine import AnalysisError, PropertySpec, norm
+from ..engine import AnalysisError, MechanismMissing, PropertySpec, norm
 from ..pyutil import call_name, calls, dotted, is_name, kwarg, walk_local
 from ..origins import analyse_flatten
 
@@ -76,7 +76,7 @@ def r05_2(ctx, rep):
     rep.ob(R, AST + ":Class.find_class", "default copy=True", isinstance(d, ast.Constant) and d.value is True,
            "the default decides 7 lookups in tree.py")
     if n < 6:
-        raise AnalysisError(R, "fewer than 6 find_class call sites found")
+        raise MechanismMissing(R, "fewer than 6 find_class call sites found")
 
 
 @SPEC.rule(
